@@ -213,23 +213,27 @@ func (r *renderer) raggedPad(d int) string {
 
 func (r *renderer) junk() {
 	l := r.l
+	// indentation of a line that does not count: of the file's own kind, or - such a line is no
+	// indentation of anything - of the other kind (spaces in a file indented with tabs and vice versa)
+	pad := func() string {
+		tabs := l.Tabs
+		if l.rnd.Intn(3) == 0 {
+			tabs = !tabs
+		}
+		if tabs {
+			return strings.Repeat("\t", l.rnd.Intn(4))
+		}
+		return strings.Repeat(" ", l.rnd.Intn(13))
+	}
 	for l.JunkProb > 0 && l.rnd.Float64() < l.JunkProb {
 		switch l.rnd.Intn(3) {
 		case 0:
 			r.sb.WriteString(l.nl())
 		case 1: // whitespace-only line of arbitrary width
-			if l.Tabs {
-				r.sb.WriteString(strings.Repeat("\t", l.rnd.Intn(4)))
-			} else {
-				r.sb.WriteString(strings.Repeat(" ", l.rnd.Intn(13)))
-			}
+			r.sb.WriteString(pad())
 			r.sb.WriteString(l.nl())
 		default: // comment-only line at arbitrary indentation
-			if l.Tabs {
-				r.sb.WriteString(strings.Repeat("\t", l.rnd.Intn(4)))
-			} else {
-				r.sb.WriteString(strings.Repeat(" ", l.rnd.Intn(13)))
-			}
+			r.sb.WriteString(pad())
 			r.sb.WriteString("// comment" + l.nl())
 		}
 	}
